@@ -4,6 +4,5 @@ NA = {
     'C07': 'check under construction in this session',
     'C09': 'check under construction in this session',
     'C13': 'not applicable: whole-pipeline functional statement whose oracle is a JSON parser; the pieces that have contracts are decided under C04 (escapes), C08 (numbers/literals) and C02 (nesting)',
-    'C19': 'check under construction in this session',
     'C20': 'not applicable: rests on derived Hash/Eq and on hashlink::LinkedHashMap (not code of this repository that a contract can be attached to); Kani on the real types did not finish one insert + two lookups in 10 minutes',
 }
